@@ -653,7 +653,6 @@ def e(ctx):
     w = _writers(ctx.prog, "_recent_messages")
     n = sum(len(v) for v in w.values())
     ctx.floor("write sites of _recent_messages in the package", n, 3)
-    ctx.need(allowed <= set(w), "the writer scan does not find the writes of %s" % sorted(x.split(".")[-1] for x in allowed - set(w)))
     # The scheduled expiry may be a method of its own (call_later(t, self._forget, key)): it is accepted when the
     # symbolic run of _deduplicate_message identifies it as the expiry callback (C04.c checks that it removes
     # exactly the key) and nothing else in the package refers to it.  Likewise a helper that is referred to by the
@@ -682,6 +681,10 @@ def e(ctx):
             ok = fn in allowed or fn in part_of
             ctx.ob("writer of _recent_messages is one of the de-duplication functions", ok, fi, node,
                    detail="%s in %s%s" % (kind, fn, (" (used by %s only)" % part_of[fn]) if fn in part_of else ""))
+    # Self-check of the scan, AFTER the writers it did find have been judged: a writer outside the de-duplication
+    # functions is a violation whether or not the scan also recognises the writes of the functions themselves
+    # (a foreign writer that was found is a fact; a refusal here only ever adds to it).
+    ctx.need(allowed <= set(w), "the writer scan does not find the writes of %s" % sorted(x.split(".")[-1] for x in allowed - set(w)))
     # positive control for the zero-instance side of the rule
     ctl = ast.parse("def f(self):\n    self._recent_messages.clear()\n").body[0]
     ctx.need(len(stores_to_any(ctl, "_recent_messages")) == 1, "positive control for the writer scan failed")
@@ -1285,6 +1288,8 @@ R.seed("C04.c", F_MM, "                functools.partial(self._recent_messages.p
 R.seed("C04.c", F_MM, "                    self._send_initially(self._recent_messages[key])", "                    self._send_initially(self._recent_messages.pop(key))", "the reply is forgotten with the first re-answer")
 R.seed("C04.c", F_MM, "        if key in self._recent_messages:\n            if message.mtype is CON:", "        if self._recent_messages.get(key) is not None:\n            if message.mtype is CON:", "an identifier without reply yet counts as new: executed twice")
 R.seed("C04.d", F_MM, "        if key in self._recent_messages:\n            self._recent_messages[key] = message", "        if key not in self._recent_messages:\n            self._recent_messages[key] = message", "membership test inverted")
+R.seed("C04.e", F_MM, "        self.log.debug(\"Exchange removed, message ID: %d.\", message.mid)\n", "        self.log.debug(\"Exchange removed, message ID: %d.\", message.mid)\n        self._recent_messages = {}\n", "foreign writer re-binds the table: every identifier forgotten in bulk, whenever that function runs")
+R.seed("C04.e", F_MM, "        self.log.debug(\"Exchange removed, message ID: %d.\", message.mid)\n", "        self.log.debug(\"Exchange removed, message ID: %d.\", message.mid)\n        for table in (self._recent_messages, self._active_exchanges):\n            table.pop(key, None)\n", "foreign writer reaching the table through the variable of a loop over a literal tuple of tables")
 R.seed("C04.e", F_MM, "        self.log.debug(\"Exchange removed, message ID: %d.\", message.mid)\n", "        self.log.debug(\"Exchange removed, message ID: %d.\", message.mid)\n        self.loop.call_soon(lambda: self._recent_messages.pop(key, None))\n", "foreign writer hidden in a lambda")
 
 R.seed("C04.f", "aiocoap/numbers/constants.py", "        return self.ACK_TIMEOUT\n", "        return self.EMPTY_ACK_DELAY\n", "PROCESSING_DELAY 0.1 s: EXCHANGE_LIFETIME shrinks to 245.1 s")
